@@ -5,7 +5,7 @@ FILES = ["fandango/constraints/base.py", "fandango/constraints/expression.py", "
          "fandango/constraints/conjunction.py", "fandango/constraints/disjunct.py", "fandango/constraints/exists.py",
          "fandango/constraints/forall.py", "fandango/constraints/implication.py", "fandango/language/search.py",
          "fandango/language/parse/convert.py", "fandango/evolution/evaluation.py"]
-NPROG = 29
+NPROG = 34
 # programs that never hold on a two-record tree (twin asks for a violated tree instead)
 NEVER_TRUE_2REC = {9: False}
 ENCODED = ["ExpressionConstraint/ComparisonConstraint/ConjunctionConstraint/DisjunctionConstraint/ForallConstraint/ExistsConstraint.fitness",
@@ -21,8 +21,8 @@ def conds_for(progs, tier, fn="verdict", twins=True):
         env = {"H_PROG": str(p), "H_R2": "2" if q else "3"}
         if q and p == 11:
             env["H_REACH_TRUE"] = "0"  # needs two values in the second record: the twin asks for a violated tree instead
-        if p == 9:
-            twin = None  # constant-true program ('no match = nothing to violate')
+        if p in (9, 31, 32):
+            twin = None  # constant programs ('no match = nothing to violate' / exists over an empty selection)
         else:
             twin = "reach" if twins else None
         out.append(Cond("h_constraints.py", fn, to, twin=twin, path_timeout=to / 2, env=env))
